@@ -42,6 +42,9 @@ type FuncContract struct {
 	IsIface      bool
 	Trusted      bool // contract assumed at call sites, body not verified (listed in evidence)
 	LockFree     bool
+	Recovers     bool
+	RecoverGuard bool
+	RecoverGuardProps []string
 	GhostVars    []*GhostVar
 	Afters       []*GhostUpdate
 	MakeChans    map[int][]*Clause // ghost facts fixed at the n-th make(chan) of the function
@@ -306,6 +309,16 @@ func ParseContracts(dir, pkgPath string) (*PkgContracts, error) {
 					c.Props = cur.Props
 				}
 				cur.Modifies = append(cur.Modifies, c)
+			}
+		case "recovers":
+			// the function is a deferred closure that recovers: verified with recover() returning a non-nil value
+			cur.Recovers = true
+		case "recoverguard":
+			// the function's first deferred call is a `recovers` closure and nothing that can panic precedes it
+			cur.RecoverGuard = true
+			cur.RecoverGuardProps = parseProps(props)
+			if len(cur.RecoverGuardProps) == 0 {
+				cur.RecoverGuardProps = cur.Props
 			}
 		case "inline":
 			cur.Inline = true
